@@ -59,6 +59,7 @@ class Model:
   """Unrolled transition system for a list of Tries."""
 
   K = 8   # capacity of a modelled list (scope stacks are far shallower)
+  TIMEOUT_MS = 120000   # per solver query ("unknown" is an infrastructure error, never a verdict)
 
   def __init__(self, tries, init_present=None, list_init=None):
     self.tries = tries
@@ -130,6 +131,11 @@ class Model:
 
   def cells_of(self, obj):
     return [(c, i) for c, i in self.cells.items() if c[0] == obj]
+
+  def cells_under(self, obj):
+    """Cells of `obj` and of the child dicts stored in it (named obj[key]): clearing the outer
+    dict makes the children unreachable, so the dumped state no longer shows their cells."""
+    return [(c, i) for c, i in self.cells.items() if c[0] == obj or c[0].startswith(obj + '[')]
 
   def _build(self):
     T, N = self.T, self.N
@@ -284,7 +290,7 @@ class Model:
                 elif ie.writes == 'CLEAR':
                   o = self.objs[ie.obj]
                   bumps.setdefault(o, []).append(z3.BoolVal(True))
-                  for c, ci in self.cells_of(ie.obj):
+                  for c, ci in self.cells_under(ie.obj):
                     lp[ci] = z3.BoolVal(False)
               conds.append((z3.And(cnd) if cnd else z3.BoolVal(True), obs, child))
               atomic_fx[obs] = (lp, lv, bumps, errs, effs)
@@ -359,7 +365,7 @@ class Model:
               upd_ver[o].append((gc_, z3.If(z3.Or(bump), self.ver[o][t] + 1, self.ver[o][t])))
             elif w == 'CLEAR':
               o = self.objs[obj]
-              for c, ci in self.cells_of(obj):
+              for c, ci in self.cells_under(obj):
                 upd_pres[ci].append((gc_, z3.BoolVal(False)))
               upd_ver[o].append((gc_, self.ver[o][t] + 1))
       # a scheduled thread must be at a non-terminal node unless everybody is done
@@ -398,7 +404,7 @@ class Model:
   def ask(self, extra, need_complete=True):
     """Returns a schedule (list of thread indices) satisfying `extra`, or None."""
     s = z3.Solver()
-    s.set('timeout', 120000)
+    s.set('timeout', self.TIMEOUT_MS)
     s.add(self.cons)
     s.add(extra)
     t0 = time.time()
